@@ -77,6 +77,52 @@ def isStartCodon (val : List Char) (table : Int) : PyR Bool :=
   | .error e => .error e
   | .ok cs => .ok (cs.contains val)
 
+/-! ### histories over the Codon API
+
+  `Codon.__new__` keeps one object per upper-cased text and `__init__` (re-run on every construction) stores that
+  same upper-cased text, so an object's state is a function of the key it is filed under: constructing other codons
+  cannot change a held object, and `Codon(t) is held` iff `upper(t)` is the held value.  The model is therefore
+  state-free: every answer is a function of the value. -/
+
+def ansO {α} : PyR α → Option α
+  | .ok a => some a
+  | .error _ => none
+
+/-- every answer of the codon object with value `v` -/
+structure Answers where
+  text : List Char
+  trStrict : Option Char
+  trLoose : Option Char
+  stop : Option Bool
+  strict : Option Bool
+  canon : Option Bool
+  st0 : Option Bool
+  st1 : Option Bool
+  st11 : Option Bool
+  syn0 : Option (List (List Char))
+  syn1 : Option (List (List Char))
+  deriving DecidableEq, Repr
+
+def answers (v : List Char) : Answers :=
+  { text := v, trStrict := some (translate v true), trLoose := some (translate v false),
+    stop := ansO (isStopCodon v), strict := some (isStrictCodon v), canon := some (isCanonicalStart v),
+    st0 := ansO (isStartCodon v 0), st1 := ansO (isStartCodon v 1), st11 := ansO (isStartCodon v 11),
+    syn0 := ansO (synonymousCodons v false), syn1 := ansO (synonymousCodons v true) }
+
+/-- outcome of one interleaved `Codon(sp)`: accepted?, and is it the held object (same singleton key)? -/
+def outcome (v : List Char) (sp : List Char) : Bool × Bool :=
+  match mkCodon sp with
+  | .ok w => (true, w == v)
+  | .error _ => (false, false)
+
+/-- hold `Codon(held)`; answers before, outcomes of the interleaved constructions, answers after,
+    (`Codon(held) is obj`, `obj == Codon(held)`, `hash(obj) == hash(value)`) -/
+def hist (held : List Char) (sps : List (List Char)) :
+    PyR (Answers × List (Bool × Bool) × Answers × (Bool × Bool × Bool)) :=
+  match mkCodon held with
+  | .error e => .error e
+  | .ok v => .ok (answers v, sps.map (outcome v), answers v, (true, true, true))
+
 /-- `aacodons[aa]` -/
 def aaCodons (aa : Char) : PyR (List (List Char)) := dictGetE Gen.aacodons aa
 
